@@ -66,6 +66,8 @@ def c02(tier):
     if tier == "quick":
         gen_replay(v, wd, tier, "C02", "MaxT = 3 MaxId = 3 MaxSteps = 1 MaxExt = 2\n Menu <- MenuPast Seed = TRUE Starts = {0, 2} Limits <- LimitsNone", 8,
                    "programs with past/present/future adds, start in {0,2}")
+        gen_replay(v, wd, tier, "C02", "MaxT = 2 MaxId = 3 MaxSteps = 2 MaxExt = 1\n Menu <- MenuSmall Seed = TRUE Starts = {0} Limits <- LimitsNone", 8,
+                   "external add while paused", tag="g2")
     else:
         gen_replay(v, wd, tier, "C02", "MaxT = 4 MaxId = 4 MaxSteps = 1 MaxExt = 2\n Menu <- MenuPast Seed = TRUE Starts = {0, 2, 3} Limits <- LimitsNone", 10,
                    "programs with past/present/future adds, start in {0,2,3}")
